@@ -26,6 +26,11 @@ struct Started {
     tname: String,
 }
 
+struct Started2 {
+    session_id: u32,
+    tname: String,
+}
+
 struct Shared {
     ctx: Arc<RunCtx>,
     senders: Mutex<HashMap<String, Sender<Box<Event>>>>,
@@ -281,51 +286,111 @@ pub fn run_scenario(job: &Value) -> Value {
         }
     }
     let es = executor.state.clone();
+    // C17: lock observation (one scenario at a time per process) and steering into a predicted cycle
+    let with_locks = job.get("locks").and_then(|x| x.as_bool()).unwrap_or(false);
+    if with_locks {
+        let mut points = Vec::new();
+        if let Some(Value::Array(ps)) = job.get("points") {
+            for p in ps {
+                points.push(crate::locks::Point {
+                    thread: p.get("thread").and_then(|x| x.as_str()).unwrap_or("").to_string(),
+                    holds: Vec::new(),
+                    wants: Vec::new(),
+                    holds_class: p.get("holds").and_then(|x| x.as_str()).unwrap_or("").to_string(),
+                    wants_class: p.get("wants").and_then(|x| x.as_str()).unwrap_or("").to_string(),
+                });
+            }
+        }
+        crate::locks::begin(points);
+    }
     let empty = Vec::new();
     let defs = job.get("sessions").and_then(|x| x.as_array()).unwrap_or(&empty);
     let env = Arc::new(StartEnv { executor: executor.clone(), defs: defs.clone(), dir: dir.clone(), started: Mutex::new(HashMap::new()),
                                   names: Mutex::new(Vec::new()), errors: Mutex::new(Vec::new()) });
     let mut errors: Vec<Value> = Vec::new();
 
-    let steps = job.get("steps").and_then(|x| x.as_array()).unwrap_or(&empty);
-    for st in steps {
-        if Instant::now() >= deadline {
-            errors.push(json!("scenario deadline reached"));
-            break;
+    // the steps run on their own thread: a host call that blocks forever (deadlock inside the library) must not take
+    // the harness with it
+    let steps: Vec<Value> = job.get("steps").and_then(|x| x.as_array()).cloned().unwrap_or_default();
+    let step_errors: Arc<Mutex<Vec<Value>>> = Arc::new(Mutex::new(Vec::new()));
+    let host_blocked;
+    {
+        let sh = sh.clone();
+        let env = env.clone();
+        let ctx = ctx.clone();
+        let step_errors = step_errors.clone();
+        let mut executor = executor.clone();
+        let tn = format!("{}_steps", std::thread::current().name().unwrap_or("scen"));
+        let h = std::thread::Builder::new().name(tn).spawn(move || {
+            for st in &steps {
+                if Instant::now() >= deadline {
+                    step_errors.lock().unwrap().push(json!("scenario deadline reached"));
+                    break;
+                }
+                if let Some(name) = st.get("start").and_then(|x| x.as_str()) {
+                    start_session(&sh, &env, name);
+                } else if let Some(groups) = st.get("threads").and_then(|x| x.as_array()) {
+                    let mut hs = Vec::new();
+                    for (pi, g) in groups.iter().enumerate() {
+                        let sh2 = sh.clone();
+                        let env2 = env.clone();
+                        let steps: Vec<Value> = g.as_array().cloned().unwrap_or_default();
+                        hs.push(std::thread::Builder::new().name(format!("producer_{}", pi + 1)).spawn(move || {
+                            producer_steps(&sh2, &env2, pi + 1, &steps);
+                        }).unwrap());
+                    }
+                    for h in hs {
+                        let _ = h.join();
+                    }
+                } else if let Some(ms) = st.get("settle").and_then(|x| x.as_u64()) {
+                    settle(&ctx, ms, deadline);
+                } else if let Some(name) = st.get("cancel").and_then(|x| x.as_str()) {
+                    if let Some(s) = env.started.lock().unwrap().get(name) {
+                        let _ = s.sender.send(Box::new(Event::new_simple(fsm::EVENT_CANCEL_SESSION)));
+                    }
+                } else if st.get("shutdown").is_some() {
+                    let r = std::panic::catch_unwind(std::panic::AssertUnwindSafe(|| executor.shutdown()));
+                    if r.is_err() {
+                        step_errors.lock().unwrap().push(json!("shutdown panicked"));
+                    }
+                } else {
+                    producer_steps(&sh, &env, 0, std::slice::from_ref(st));
+                }
+            }
+        }).unwrap();
+        while !h.is_finished() && Instant::now() < deadline + Duration::from_millis(500) {
+            std::thread::sleep(Duration::from_millis(1));
         }
-        if let Some(name) = st.get("start").and_then(|x| x.as_str()) {
-            start_session(&sh, &env, name);
-        } else if let Some(groups) = st.get("threads").and_then(|x| x.as_array()) {
-            let mut hs = Vec::new();
-            for (pi, g) in groups.iter().enumerate() {
-                let sh2 = sh.clone();
-                let env2 = env.clone();
-                let steps: Vec<Value> = g.as_array().cloned().unwrap_or_default();
-                hs.push(std::thread::Builder::new().name(format!("producer_{}", pi + 1)).spawn(move || {
-                    producer_steps(&sh2, &env2, pi + 1, &steps);
-                }).unwrap());
-            }
-            for h in hs {
-                let _ = h.join();
-            }
-        } else if let Some(ms) = st.get("settle").and_then(|x| x.as_u64()) {
-            settle(&ctx, ms, deadline);
-        } else if let Some(name) = st.get("cancel").and_then(|x| x.as_str()) {
-            if let Some(s) = env.started.lock().unwrap().get(name) {
-                let _ = s.sender.send(Box::new(Event::new_simple(fsm::EVENT_CANCEL_SESSION)));
-            }
-        } else if st.get("shutdown").is_some() {
-            let r = std::panic::catch_unwind(std::panic::AssertUnwindSafe(|| executor.shutdown()));
-            if r.is_err() {
-                errors.push(json!("shutdown panicked"));
-            }
-        } else {
-            producer_steps(&sh, &env, 0, std::slice::from_ref(st));
+        host_blocked = !h.is_finished();
+        if !host_blocked {
+            let _ = h.join();
         }
     }
+    errors.extend(step_errors.lock().unwrap().iter().cloned());
     // end: cancel everything that is still running, then wait for the top-level threads
     let horizon = ctx.us();
-    let mut started = std::mem::take(&mut *env.started.lock().unwrap());
+    let mut lock_names = serde_json::Map::new();
+    if with_locks {
+        lock_names.insert("E".to_string(), json!(es.arc.verif_id()));
+        if let Ok(st) = es.arc.try_lock() {
+            for (k, p) in st.processors.iter().enumerate() {
+                lock_names.insert(format!("P{}", k + 1), json!(p.verif_id()));
+            }
+        }
+        for (name, s) in env.started.try_lock().map(|g| g.iter().map(|(k, v)| (k.clone(), (v.session_id, v.tname.clone()))).collect::<Vec<_>>()).unwrap_or_default().iter() {
+            let s = &Started2 { session_id: s.0, tname: s.1.clone() };
+            if let Ok(st) = es.arc.try_lock() {
+                if let Some(sess) = st.sessions.get(&s.session_id) {
+                    lock_names.insert(format!("G:{}", name), json!(sess.global_data.verif_id()));
+                }
+            }
+            lock_names.insert(format!("T:{}", name), json!(s.tname));
+        }
+    }
+    let mut started = match env.started.try_lock() {
+        Ok(mut g) => std::mem::take(&mut *g),
+        Err(_) => HashMap::new(),
+    };
     let names = env.names.lock().unwrap().clone();
     errors.extend(env.errors.lock().unwrap().iter().cloned());
     for s in started.values() {
@@ -333,6 +398,9 @@ pub fn run_scenario(job: &Value) -> Value {
     }
     let mut panics = Vec::new();
     let mut stalls = Vec::new();
+    if host_blocked {
+        stalls.push(json!("host"));
+    }
     for (name, s) in started.iter_mut() {
         if let Some(t) = s.thread.take() {
             while !t.is_finished() && Instant::now() < deadline {
@@ -370,6 +438,13 @@ pub fn run_scenario(job: &Value) -> Value {
     for k in -1..32 {
         ctx.open_gate(k);
     }
+    let lock_report = if with_locks {
+        let mut v = crate::locks::end();
+        v["names"] = Value::Object(lock_names);
+        v
+    } else {
+        Value::Null
+    };
     if let Some(rt) = runtime.take() {
         let _ = std::panic::catch_unwind(std::panic::AssertUnwindSafe(|| executor.shutdown()));
         rt.shutdown_timeout(Duration::from_secs(3));
@@ -384,6 +459,7 @@ pub fn run_scenario(job: &Value) -> Value {
         "gate_timeouts": *ctx.gate_timeouts.lock().unwrap(),
         "horizon": horizon,
         "posts": *sh.posts.lock().unwrap(),
+        "locks": lock_report,
     })
 }
 
